@@ -367,6 +367,9 @@ void gen_history_task(Gen &g, Task &t, const HistCfg &cfg) {
         }
         if (prog.empty()) prog.push_back(pick_instr(r));
         if (rej >= 0 && r.chance(1, 3)) prog.insert(prog.begin() + (long)r.below(prog.size() + 1), pick_reject(r));
+      } else if (!m.external && cfg.fresh_twin && r.chance(1, 3)) {
+        // a long program on a library-managed buffer: the instance outgrows what a new instance starts with
+        prog = gen_program(r, (int)r.range(1300, 2600), 0, -1);
       } else {
         // deliberately too long
         prog = gen_program(r, (int)std::min<long>(60, room / 3 + 3), 0, -1);
@@ -1000,6 +1003,12 @@ void gen_c19(Gen &g) {
   if (r.chance(1, 3)) {
     int o = (int)r.below(12);
     emit_opts(g, t, 0, o / 4, (o / 2) & 1, o & 1);
+  }
+  if (r.chance(1, 3)) {
+    // the file entry points honour the instance's chunk fitting like the in-memory ones
+    Op ch = g.mk(OP_CHUNK, 0);
+    ch.c = r.chance(1, 10) ? r.range(0, 1) : r.range(2, 64);
+    t.ops.push_back(ch);
   }
   int nfiles = (int)r.range(1, 3);
   for (int i = 0; i < nfiles; i++) {
